@@ -416,7 +416,7 @@ func genBodyLen(r *rand.Rand, maxLen int) int {
 
 var respNames = []string{"Content-Type", "Cache-Control", "Etag", "Last-Modified", "Vary", "X-Frame-Options", "Content-Language", "Expires", "Server", "Link", "Www-Authenticate", "Retry-After", "Access-Control-Allow-Origin"}
 
-func genPlan(r *rand.Rand, method string, big int) PlanSpec {
+func genPlan(r *rand.Rand, method string, big, respCap int) PlanSpec {
 	p := PlanSpec{Status: pick(r, statuses), BodySeed: r.Int63()}
 	var n int
 	switch k := r.Intn(10); {
@@ -460,7 +460,7 @@ func genPlan(r *rand.Rand, method string, big int) PlanSpec {
 	if !bodyAllowed(method, p.Status) {
 		return p
 	}
-	total := genBodyLen(r, 1<<20)
+	total := genBodyLen(r, respCap)
 	if big > 0 {
 		total = big
 	}
@@ -510,7 +510,7 @@ func bodyAllowed(method string, status int) bool {
 
 // genSpec builds exchange number id. big > 0 forces a request body of that
 // size, bigResp > 0 a response body of that size.
-func genSpec(r *rand.Rand, runID string, id int, proto string, big, bigResp int) *Spec {
+func genSpec(r *rand.Rand, runID string, id int, proto string, big, bigResp, respCap int) *Spec {
 	s := &Spec{ID: id, Proto: proto, HeadersPad: -1}
 	s.Tag = fmt.Sprintf("%s-%d", runID, id)
 	s.Preserve = r.Intn(2) == 0
@@ -606,7 +606,7 @@ func genSpec(r *rand.Rand, runID string, id int, proto string, big, bigResp int)
 		}
 		s.WithPriority = r.Intn(6) == 0
 	}
-	s.Plan = genPlan(r, s.Method, bigResp)
+	s.Plan = genPlan(r, s.Method, bigResp, respCap)
 	return s
 }
 
